@@ -678,8 +678,8 @@ impl Arm for ByzHist {
     }
     fn runs(&self, tier: Tier) -> u64 {
         match tier {
-            Tier::Quick => 250,
-            Tier::Thorough => 8000,
+            Tier::Quick => 2500,
+            Tier::Thorough => 40_000,
         }
     }
     fn gen(&self, rng: &mut Rng, tier: Tier, _i: u64) -> Value {
